@@ -160,7 +160,7 @@ static bool runOcca(const std::string &src, std::vector<std::string> &lines, int
 static std::string showLines(const std::vector<std::string> &l) {
   std::string s;
   for (size_t i = 0; i < l.size(); ++i) { if (i) s += " <NL> "; s += l[i]; }
-  return s.empty() ? "-" : s;
+  return s.empty() ? "<EMPTY>" : s;
 }
 
 int main() {
@@ -199,7 +199,7 @@ int main() {
           cppOk = (expectStatus == "ok");
           std::string cur; std::istringstream es(expectOut); std::string w;
           while (es >> w) { if (w == "<NL>") { if (!cur.empty()) cl.push_back(cur); cur.clear(); } else { if (!cur.empty()) cur += " "; cur += w; } }
-          if (!cur.empty() && cur != "-") cl.push_back(cur);
+          if (!cur.empty() && cur != "<EMPTY>") cl.push_back(cur);
         } else {
           cppOk = runCpp(src, cl, diag);
         }
